@@ -713,6 +713,61 @@ Proof.
   apply step_mirror; [exact HW | apply plain_op_ok; exact Ho | exact HM].
 Qed.
 
+(** *** one statement from genesis.  Envelope along the history ([MirrorEnv]): in every visited
+    world either both ledgers are still empty or the wiring is complete (no bSei balance exists
+    while the contracts are not wired).  Operations ([ops_ok]): root senders are not the bSei
+    contract address, and every (re-)instantiation of the bSei token or of the reward contract
+    leaves both ledgers empty (token without initial balances, reward contract without holders). *)
+Definition MirrorEnv (w : world) : Prop := FreshLedgers w \/ Wired w.
+
+Definition inst_ok (w : world) (o : op) : Prop :=
+  match o with
+  | OTx sender _ _ _ => sender <> A_bsei
+  | OInstBsei _ _ _ | OInstReward _ _ _ _ _ => FreshLedgers (fst (step w o))
+  | _ => True
+  end.
+
+Fixpoint ops_ok (ops : list op) (w : world) : Prop :=
+  match ops with [] => True | o :: r => inst_ok w o /\ ops_ok r (fst (step w o)) end.
+
+Lemma Mirror_empty ut : Mirror (empty_world ut).
+Proof. intros tb r E. discriminate E. Qed.
+
+Theorem step_mirror_env w o :
+  MirrorEnv (fst (step w o)) -> inst_ok w o -> Mirror w -> Mirror (fst (step w o)).
+Proof.
+  intros [HF|HW'] Hok HM; [apply Fresh_Mirror; exact HF|].
+  destruct o; cbn [inst_ok] in Hok; try (apply Fresh_Mirror; exact Hok);
+    try (cbn [step fst]; apply (Mirror_same w); [reflexivity|reflexivity|exact HM]).
+  - apply Mirror_empty.
+  - cbn [step]. destruct (e_now (w_env w) + dt <=? 18446744073); exact HM.
+  - cbn [step]. destruct (ev_slash _ _ _ _ _); exact HM.
+  - cbn [step]. destruct (ev_accrue _ _ _ _ _); exact HM.
+  - cbn [step]. destruct (p =? 0); exact HM.
+  - cbn [step]. destruct (w_hub w); exact HM.
+  - cbn [step] in *. destruct (run tx_fuel w _ []) as [[w1 tr1]|] eqn:E; cbn [fst] in *; [|exact HM].
+    destruct (rewire_wasm m) eqn:Hm.
+    + eapply SameLedgers_mirror; [|exact HM]. eapply tx_mirror_rewire; eauto.
+    + assert (HW : Wired w).
+      { eapply Wired_wdata; [|exact HW']. symmetry. eapply tx_wdata; eauto. }
+      eapply tx_mirror; eauto.
+Qed.
+
+Theorem mirror_genesis_gen : forall ops w0,
+  always MirrorEnv ops w0 -> ops_ok ops w0 -> Mirror w0 -> always Mirror ops w0.
+Proof.
+  induction ops as [|o ops IH]; intros w0 HA Hok HM; cbn [always ops_ok] in *; [tauto|].
+  destruct HA as [_ HA]. destruct Hok as [Ho Hok]. split; [exact HM|].
+  apply IH; [exact HA | exact Hok |].
+  apply step_mirror_env; [eapply always_head; exact HA | exact Ho | exact HM].
+Qed.
+
+(** C16: every history from the empty chain *)
+Theorem mirror_genesis ut ops :
+  always MirrorEnv ops (empty_world ut) -> ops_ok ops (empty_world ut) ->
+  always Mirror ops (empty_world ut).
+Proof. intros HA Hok. apply mirror_genesis_gen; [exact HA | exact Hok | apply Mirror_empty]. Qed.
+
 (** ** when is the mirror exact inside a transaction?
     The pending Increase/DecreaseBalance messages always sit on TOP of the stack (they are the first
     messages a bSei handler emits and they emit nothing themselves), so the mirror is exact whenever
@@ -962,6 +1017,35 @@ Proof.
     exact (mirror_from_fresh 50 ex_setup ex_acts ex_w1_fresh ex_always_wired ex_acts_ok).
   - vm_compute. do 2 eexists. repeat split.
 Qed.
+
+(** the hypotheses of [mirror_genesis] are satisfiable by the same history, from the empty chain *)
+Lemma ex_genesis_env : always MirrorEnv (ex_setup ++ ex_acts) (empty_world 50).
+Proof.
+  vm_compute.
+  repeat match goal with
+         | |- _ /\ _ => split
+         | |- True => exact I
+         | |- _ \/ _ =>
+             first [ solve [ left; split; intros x E; first [discriminate E | inversion E; subst; split; reflexivity] ]
+                   | solve [ right; repeat split ] ]
+         end.
+Qed.
+
+Lemma ex_genesis_ok : ops_ok (ex_setup ++ ex_acts) (empty_world 50).
+Proof.
+  vm_compute.
+  repeat match goal with
+         | |- _ /\ _ => split
+         | |- True => exact I
+         | |- _ <> _ => discriminate
+         | |- _ = _ -> False => discriminate
+         | |- forall x, _ = Some x -> _ =>
+             intros x E; first [discriminate E | inversion E; subst; split; reflexivity]
+         end.
+Qed.
+
+Example example_genesis_nonvacuous : Mirror (run_ops (ex_setup ++ ex_acts) (empty_world 50)).
+Proof. apply always_final. apply mirror_genesis; [exact ex_genesis_env | exact ex_genesis_ok]. Qed.
 
 (** the hypotheses of [dec_after_debit_succeeds] are satisfiable *)
 Example example_dec_nonvacuous :
